@@ -72,12 +72,12 @@ func checkC20(c *ctx) {
 
 	// ---- (b) -----------------------------------------------------------------
 	mo := prog.DefaultOpts()
-	mo.PredPct, mo.FallbackPct, mo.InstrPct, mo.WrapPct, mo.GenericPct = 0, 0, 0, 0, 0
+	mo.PredPct, mo.FallbackPct, mo.InstrPct, mo.WrapPct, mo.GenericPct = 0, 0, 0, 25, 0
 	mo.NoInvoke = true
 	mo.Spellings = []int{prog.SpLit, prog.SpLit, prog.SpTop, prog.SpMethod, prog.SpVar}
 	var gcov map[string]interface{}
 	if c.R.NumViolations() < 6 {
-		c.AlsoProps = []string{"C01", "C02", "C03", "C04", "C07", "C09"}
+		c.AlsoProps = []string{"C01", "C02", "C03", "C04", "C07", "C09", "C15"} // (the modes must agree on when and in which order the arguments are evaluated, too)
 		progs := genPrograms(c.Seed, "C20m", c.pick(70, 800), 0, mo, 1)
 		for _, p := range progs {
 			p.InMethod = false
